@@ -241,6 +241,35 @@ def validator_fn(F, role):
     return cands[0] if len(cands) == 1 else None
 
 
+def _refusal_variant(F, fn, gb):
+    """the Option/enum variant of closure gb's result that makes validator fn return Err: fn switches on the discriminant of
+    the value gb produced (through a lock accessor and `?`) and exactly one variant's edge leads to Err only.  None if fn does
+    not branch on gb's result."""
+    from terms import closures_in_term, no_inlining
+    eb = error_blocks(fn)
+    for b in range(len(fn.blocks)):
+        t = fn.term(b)
+        if t["k"] != "switch" or fn.is_cleanup(b):
+            continue
+        with no_inlining():
+            d = origin(fn, t["discr"])
+        if d[0] != "discr" or gb.id not in closures_in_term(d) or not (len(d) > 3 and d[3]):
+            continue
+        if d[1][0] == "call" and d[1][1].endswith("::branch"):
+            continue        # the `?` on the accessor's Result, not a decision on the reported value
+        names = {v: n for (n, v) in d[3]}
+        rej, acc = [], []
+        for (v, tb) in t.get("targets", []):
+            (rej if (tb in eb or _leads_to_error_only(fn, tb)) else acc).append(names.get(v))
+        other = [n for (n, v) in d[3] if v not in [x for x, _ in t.get("targets", [])]]
+        if fn.term(t["otherwise"])["k"] != "unreachable":
+            (rej if (t["otherwise"] in eb or _leads_to_error_only(fn, t["otherwise"])) else acc).extend(other)
+        rej = [x for x in rej if x]
+        if len(rej) == 1 and acc:
+            return rej[0]
+    return None
+
+
 def clause_validator_rows(R, F):
     em = engine_methods(F)
     fn = validator_fn(F, "next-tx")
@@ -275,9 +304,16 @@ def clause_validator_rows(R, F):
     rows = {}
     for gb in row_bodies:
         ebb = error_blocks(gb)
+        refusal_variant = _refusal_variant(F, fn, gb) if gb is not fn else None
         for (b, s, fm, line) in edge_forms(gb):
             r, k, rel, bad = fm.roles(role)
             to_err = s in ebb or _leads_to_error_only(gb, s)
+            if not to_err and refusal_variant is not None and r:
+                # predicate style: the closure reports the broken rule as a value (`Ok(Some(violation))`) and the validator turns
+                # exactly that variant into Err
+                from terms import variant_chains
+                ch = variant_chains(gb, s)
+                to_err = bool(ch) and all(refusal_variant in c and "?" not in c for c in ch)
             if r:
                 rows[(tuple(sorted(r.items())), k, rel)] = to_err
     R.floor("validate_next_tx_rows", len(rows), 3)
